@@ -33,6 +33,8 @@ SHAPES = {
     "3x2": {"m1": ["d11", "d12"], "m2": ["d21", "d22"], "m3": ["d31", "d32"]},
 }
 DEV = os.environ.get("KEYDIST_DEV", "")     # development switches, never set by registered commands
+JITTERS = [0, 1000, 4000]       # parallel mode: each activation starts after a seeded delay below this (us)
+SLOWS = [3000, 8000, 15000]     # parallel mode: latency of every log append (us) - stretches the devices' own steps
 IMPL = ["ImplHandlerSends", "ImplSendExisting", "ImplFill", "ImplSubscribeFirst", "ImplSentOwnOnly", "ImplFilterMember"]
 # smallest shape on which each different design breaks completeness (ImplFill needs a second device of a served member)
 MUTANT_SHAPE = {"ImplFill": "1x2"}
@@ -156,6 +158,18 @@ def _spread(ctx, hs, n):
     return out
 
 
+def _racify(h):
+    """parallel-mode variant of a script: the activation of a device is moved in front of the last delivery that
+    preceded it, so that this delivery lands before / during / after the activation (seeded jitter in the driver)"""
+    h = [dict(x) for x in h]
+    for d in sorted({x["d"] for x in h if x["act"] == "activate"}):
+        ia = next(i for i, x in enumerate(h) if x["act"] == "activate" and x["d"] == d)
+        pre = [i for i in range(ia) if h[i]["act"] == "deliver" and h[i]["d"] == d]
+        if pre:
+            h.insert(pre[-1], h.pop(ia))
+    return h
+
+
 def gen_plan(ctx):
     # (shape, MaxLen, mode, walks, scripts kept sequential, of which also run in parallel mode)
     if ctx.tier == "quick":
@@ -191,7 +205,10 @@ def gen_results(ctx, plan, res):
         for h in chosen:
             scripts.append({"cfg": {"members": SHAPES[shape], "shape": shape, "par": False, "part": "c"}, "steps": h})
         for h in _spread(ctx, chosen, npar):
-            scripts.append({"cfg": {"members": SHAPES[shape], "shape": shape, "par": True, "part": "c"}, "steps": h})
+            # parallel mode: nothing waits for anything, log appends are slow: the deliveries land inside the
+            # activations and the handlers' reactions
+            scripts.append({"cfg": {"members": SHAPES[shape], "shape": shape, "par": True, "part": "c",
+                                    "jitter_us": ctx.rng.choice(JITTERS), "slow_us": ctx.rng.choice(SLOWS)}, "steps": _racify(h)})
         per_shape[shape] = {"generated": len({json.dumps(h, sort_keys=True) for h in hs}), "sequential": len(chosen), "parallel": min(npar, len(chosen)),
                             "mode": "exhaustive up to %d environment moves" % maxlen if mode == "bfs" else "%d seeded walks, <= %d environment moves" % (walks, maxlen)}
     for i, s in enumerate(scripts):
